@@ -113,8 +113,12 @@ func (c *Ctx) InternalErr(construct, what string) {
 // Min asserts that a rule saw at least min instances (no vacuous pass).
 func (c *Ctx) Min(what string, n, min int) {
 	c.Census[c.Rule+": "+what] = n
-	if n < min {
-		c.InternalErr(what, fmt.Sprintf("instance count %d below the confirmed minimum %d (anchor lost: rule would pass vacuously)", n, min))
+	// min is the count confirmed by hand on the pinned tree. The floor that fails the check is half of it:
+	// de-duplicating refactorings (extract a helper from three copies) legitimately lower the count, while a
+	// rule that lost its anchors matches nothing or next to nothing.
+	floor := (min + 1) / 2
+	if n < floor {
+		c.InternalErr(what, fmt.Sprintf("instance count %d below the floor %d (half of the %d instances confirmed by hand; anchor lost: rule would pass vacuously)", n, floor, min))
 	}
 }
 
